@@ -7,7 +7,7 @@
    PARTIAL: the constructors of stochastic objects and molecules are not modelled; their rejection rules and
    termination are checked on the malformed stream (breaking operators, byte-level mutations, 2 s limit). *)
 From Coq Require Import List ZArith QArith Ascii String Bool.
-From GBS Require Import Model.PyStr Model.Num Model.Bond Model.Token Model.SysSplit Model.DistFam Src.SrcDist Proofs.TotalP Proofs.DistP Model.Stoch Proofs.StochP Model.Mol Proofs.MolP Model.SystemM Proofs.SystemP Src.SrcStoch Src.SrcGenerable Proofs.GenerableSrcP Src.SrcDescr Proofs.DescrSrcP Src.SrcToken Proofs.TokenSrcP Src.SrcStochParse Proofs.StochParseSrcP Model.SysSplit Src.SrcSysParse Proofs.SysParseSrcP Src.SrcMolParse Proofs.MolParseSrcP.
+From GBS Require Import Model.PyStr Model.Num Model.Bond Model.Token Model.SysSplit Model.DistFam Src.SrcDist Proofs.TotalP Proofs.DistP Model.Stoch Proofs.StochP Model.Mol Proofs.MolP Model.SystemM Proofs.SystemP Src.SrcStoch Src.SrcGenerable Proofs.GenerableSrcP Src.SrcDescr Proofs.DescrSrcP Src.SrcToken Proofs.TokenSrcP Src.SrcStochParse Proofs.StochParseSrcP Model.SysSplit Src.SrcSysParse Proofs.SysParseSrcP Src.SrcMolParse Proofs.MolParseSrcP Model.Sys Src.SrcSys Proofs.SysSrcP Proofs.SystemSrcP.
 Import ListNotations.
 Open Scope Z_scope.
 
@@ -118,6 +118,12 @@ Theorem C15_molecule_parser_is_source : forall (valid_atom : str -> bool) (fprin
   parse_molecule_src valid_atom fprint text = parse_molecule valid_atom fprint text.
 Proof. intros va fp. exact (parse_molecule_is_source va fp). Qed.
 Print Assumptions C15_molecule_parser_is_source.
+
+(* System.__init__ as a whole -- splitting loop, molecule parser and bookkeeping, each rebuilt from the source -- is the model's parse_system *)
+Theorem C15_system_parser_is_source : forall (valid_atom : str -> bool) (fprint : num -> str) raw smw,
+  parse_system_src valid_atom fprint raw smw = parse_system valid_atom fprint raw smw.
+Proof. intros va fp. exact (parse_system_is_source va fp). Qed.
+Print Assumptions C15_system_parser_is_source.
 
 Example C15_example :
   (exists m, parse_token (fun _ => true) (lit "C[$]C") 0 = Err ERuntime m) /\
